@@ -38,7 +38,7 @@ CLAIMED = {
             'statement is false of the code for the `comments` attribute (negation proved on a witness; known finding KF-16a) and the '
             'theorems are _partial by exactly that attribute. Document order: children_in_print_order (kernel decision over the regenerated '
             'children() table x the regenerated unparser definitions: every class lists its node-holding attributes in the order its '
-            'definition prints them; the pre-f7ec55b DoWhile order is refuted by the same checker) and a source-order judge on parsed trees.',
+            'definition prints them; definitions_read_every_child_once; the pre-f7ec55b DoWhile order is refuted by the same checker) and a source-order judge on parsed trees.',
             'Trusted: Lean kernel, standard axioms, translators g_children.py / g_defs.py (sentinel instantiation of every class), harness. '
             'Generators are modelled as lists; Python recursion limit and shared nodes are outside the model.', 'DESIGN.md §6 C16'),
     'C03': ('Lean 4 proof of LR soundness (stack invariant by induction over driver steps) from a kernel-decided validity check of '
@@ -259,7 +259,8 @@ _upd('C07',
      'Lean 4 proof of the name-generator and remap-table invariants, of resolve-level injectivity, of "only identifiers change" on the '
      'final fragment stream, and that ES5 scope resolution commutes with a renaming satisfying a decidable alignment condition; '
      'scope-tree / remap-table / fragment-stream correspondence; binding-structure judge with an independent ES5 scope resolver',
-     'generated_not_reserved, generator_fresh, remap_tables_capture_free, top_level_unchanged, remap_injective_visible, '
+     'generated_not_reserved, obfuscator_reserved_list_is_lexer_keywords + lexer_keywords_are_es5_reserved_words (the skip list = the words the lexer '
+     'does not type ID = ES5 7.6.1), generator_fresh, remap_tables_capture_free, top_level_unchanged, remap_injective_visible, '
      'only_identifiers_change (final stream equals the un-obfuscated one up to identifier pairs, under keysPlain), '
      'resolution_commutes_with_renaming, binding_preserved_of_walk_facts_partial (for every program - catch clauses, named function '
      'expressions, labels included - whose decidable walk facts hold, every occurrence resolves to the same declaring scope, the '
